@@ -291,7 +291,9 @@ def resize_cases(rng, n):
         menu = rng.random() < 0.7
         acts = [S, {"k": "type", "h": text.hex()}, S]
         if menu:
-            acts += [{"k": "type", "h": rng.choice([b"\x1b=", b"\x1b?"]).hex()}, S]
+            # a list of candidates below the line, or a candidate selected and inserted in the line (Tab, Tab Tab: the order of
+            # the candidates does not depend on the width), or a match of an incremental history search shown in the line
+            acts += [{"k": "type", "h": rng.choice([b"\x1b=", b"\x1b?", b"\t", b"\t", b"\t\t", b"\x12"]).hex()}, S]
         tail = []
         for _ in range(rng.randint(1, 3)):
             # (keys that move in the completion grid are left out: where they lead depends on the grid's shape, hence on the width)
@@ -303,7 +305,8 @@ def resize_cases(rng, n):
         for w in widths:
             wins += [{"k": "aux", "s": "winch", "w": w, "n": 24}, S]
         base = {"inputrc": "", "w": w0, "h": 24, "prompt": rng.choice(["> ", "$ ", "prompt> "]), "free": True, "hold": False, "screen": True,
-                "wrap": "none", "comp": {"cands": rng.choice(RCANDS), "byword": True}, "hangms": 4000}
+                "wrap": "none", "comp": {"cands": rng.choice(RCANDS), "byword": True}, "hangms": 4000,
+                "sources": [{"name": "main", "kind": "mem", "lines": ["ls -la /tmp", "echo some words and then candidates", "cat file"]}]}
         out.append((dict(base, id="c20-rs-%d" % i, sessions=[acts + wins + tail]), dict(base, id="c20-rs-%d-ref" % i, sessions=[acts + tail])))
     return out
 
@@ -314,7 +317,10 @@ def resize_screen_lines(cs, evs):
     for e in evs:
         if e["ev"] == "out":
             out.append(({"ev": "out", "tok": e["tok"], "cells": e.get("cells") or [], "n": e.get("n", 0), "a": e.get("a", 0), "b": e.get("b", 0)}, e))
-        elif e["ev"] == "settle" and e.get("quiet") and e["m"] == "wread" and e["held"] == 0 and all(a == "done" for a in e["aux"]) and "glyphs" in e:
+        elif e["ev"] == "settle" and e.get("quiet") and e["m"] == "wread" and e["held"] == 0 and all(a == "done" for a in e["aux"]) and "glyphs" in e \
+                and not e.get("local") and not e.get("minibuf"):
+            # (while a candidate or a search match is shown IN the line - menu or search keymap active - what the screen shows is
+            #  that virtual line, not the buffer the API reports: the screen clause is judged once the helper is closed)
             out.append(({"ev": "wait", "prompt": [[x[0], x[1]] for x in e["pglyphs"]], "buf": [[x[0], x[1]] for x in e["glyphs"]],
                          "curidx": p_c04.cur_indices(e["glyphs"], e["cur"]), "ghost": False, "sametop": not first},
                         {k: v for k, v in e.items() if k not in ("cells", "stacks")}))
